@@ -53,6 +53,17 @@ Theorem otlp_label_names_distinct : forall resource scope record severity,
 Proof. exact otlp_map_nodup. Qed.
 Print Assumptions otlp_label_names_distinct.
 
+(* (a2'') ... but NOT of the sanitized label set for the decoders that skip sanitizeLabels (open finding
+   labels-unsanitized-by-protocol): the Datadog request with ddtags "a.b:x" and the Loki push of {a.b="x", type="datadog"}
+   have the same sanitized label set and different fingerprints of either type (real city.CH64 values, compared with
+   the code by the check; the check reports the same on the implementation as KNOWN-FINDING). *)
+Theorem fingerprint_protocol_independent_refuted_for_unsanitizing_decoders :
+  sanitize (wire_labels w_dd) = wire_labels w_loki /\
+  wire_fp (tbl_ch64 real_tbl) hash128to64 fin24 0 w_dd <> wire_fp (tbl_ch64 real_tbl) hash128to64 fin24 0 w_loki /\
+  wire_fp (tbl_ch64 real_tbl) hash128to64 fin_djb 0 w_dd <> wire_fp (tbl_ch64 real_tbl) hash128to64 fin_djb 0 w_loki.
+Proof. exact unsanitizing_decoder_splits_series. Qed.
+Print Assumptions fingerprint_protocol_independent_refuted_for_unsanitizing_decoders.
+
 (* (a3) CONDITIONAL. Different label multisets get different fingerprints on any family F of label
    lists on which the accumulation (sum, xor, product of pair hashes) and the final hash are
    collision-free. No unconditional statement can hold of a 64-bit hash; the two collision-freeness
